@@ -36,6 +36,12 @@ CHECKS = {
  "C13": dict(tech="TLC model checking of Watermark.tla (safety + liveness under fairness) + TLC trace validation of real WaterMark executions with silent channel/consumer steps",
     text="Watermark.tla mirrors the code (bounded FIFO channel, pending map, heap, consumer Take/Store/Wake, waiters); TLC checks Monotone, NeverPasses (on the FIFO-linearised history), CatchesUp, WaitSound, WaitLive and the liveness form under weak fairness, with four deviation switches as self-test. Every call sequence up to length 3 (thorough 4) over 3 indices, random longer sequences and concurrent drivers are executed on the real WaterMark; each recorded execution (calls, returns, DoneUntil observations, quiescence) is validated by TLC against the same module.",
     note="bounded model (<=3 clients, 3 indices, <=6 calls); readings fixed in DESIGN.md section 6 C13 (lag, a Done finishes an earlier Begin); 'eventually' observations use the consumer's hook count, timeouts >= 3 s"),
+ "C09": dict(tech="TLC model checking of Levels.tla (compaction cascade with version discard) + replay of every TLC initial scenario on a real level manager + TLC trace validation against TraceLookup.tla",
+    text="Levels.tla models table structure, the per-table lookup, the best-over-tables level lookup, overlap selection, merge and discardStaleEntries; from every sequence of flushed tables x watermark x block size TLC runs the compaction cascade and checks CompactionPreserves and OnlyShadowedDisappear in every state. Each scenario is replayed on a real level manager through the verif accessor (flush, lookup, checkAndCompact, lookup, recover, lookup) and compared with the spec's answers; random larger runs are judged by TLC against the lookup contract.",
+    note="exhaustive only for the 2x2 version universe with <= 2 tables; larger universes sampled; level shape (disjointness) is not part of the verdict"),
+ "C10": dict(tech="TLC model checking of Levels.tla (LookupCorrect over all tables of a small universe) + replay of every TLC scenario on the real tables + TLC trace validation against TraceLookup.tla",
+    text="For every set of versions distributed over tables, every block size (1-3 entries), every (key, ts) query and both bloom-filter answers for absent keys, TLC checks that filter -> block lower bound -> in-block lower bound -> same-key test -> best over tables equals the newest version <= ts. The scenarios are replayed on the real level manager (also after rebuilding the handles from the files) and compared with the spec's answers.",
+    note="exhaustive for 2 keys x 2 versions (<= 2 tables); thorough adds 2x3 and 3x2 single tables; bloom false positives are covered in the model only (the real filter is not forced into one)"),
  "C12": dict(tech="TLC trace validation of concurrent histories produced under the Go race detector (sensor for the lock discipline)",
     text="Concurrent scenarios (thresholds down to 1 byte, queue length 0..4, seeded delays at hook points) run in a harness built with -race; a race report or panic is a violation, and every recorded history must be accepted by AbsTxn.tla.",
     note="the memory-model clause is decided by the race detector for the schedules executed, not for all schedules; TLA+ contributes the allowed-results oracle"),
